@@ -2,7 +2,7 @@ INIT Init
 NEXT Next
 CONSTANTS
   MaxLen = 4
-  UseOps = {"toggleA", "toggleB", "load", "toggleG", "runpp", "rundcpp", "runopp"}
+  UseOps = {"toggleA", "toggleB", "load", "toggleG", "toggleE", "runpp", "rundcpp", "runopp"}
   UseInits = {"auto", "results"}
 INVARIANT Consistent
 INVARIANT StateOnly
